@@ -491,6 +491,8 @@ def run_mod(E):
             x = coprime_to(mm)
         else:
             x = E.operand(nd(mm) + 1)
+        if nd(x) + nd(mm) > CAP - 3:
+            x %= mm         # cofactor * operand must fit the precision (an overflow error would be legitimate)
         g = math.gcd(x, mm)
         par = "odd" if mm & 1 else "even"
         if g != 1:
@@ -565,6 +567,10 @@ def run_mod(E):
             return mm - 1
         return E.mag(rng.randrange(1, k + 1)) or 1
 
+    def bcls(x, mm):
+        """base class: negative / reduced / not reduced"""
+        return "neg" if x < 0 else ("lt" if x < mm else "ge")
+
     def ecls(ev):
         return "e0" if ev == 0 else ("eneg" if ev < 0 else ("e1" if ev == 1 else "e"))
 
@@ -596,7 +602,7 @@ def run_mod(E):
             # (may not terminate) a directed class of the fatal part
             alias = 2 if (alias == 2 and rng.random() < 0.3) else rng.randrange(2)
         lab = fn if R.target(fn) == fn else fn + ">" + R.target(fn)[3:]
-        key = "%s|%s|%s|%s|%s|%s|alias%d" % (lab, METH, sg(x), "lt" if abs(x) < mm else "ge", ecls(ev), mc, alias)
+        key = "%s|%s|%s|%s|%s" % (lab, METH, bcls(x, mm), ecls(ev), "alias2" if alias == 2 else "alias013")
         if not ctx.begin(key, [hx(x), hx(ev), hx(mm)], nontrivial=bool(x)):
             return
         R.bn_put(a, x)
@@ -612,7 +618,7 @@ def run_mod(E):
         x = E.operand(min(nd(mm) + 2, CAP // 2 - 1))
         ev = rng.choice([0, 1, 2, 3, B - 1, B >> 1, rng.randrange(B), rng.randrange(B)])
         mc = "m1" if mm == 1 else ("odd" if mm & 1 else "even")
-        key = "bn_mxp_dig|%s|%s|%s|%s|%s" % (METH, sg(x), "lt" if abs(x) < mm else "ge", ecls(ev), mc)
+        key = "bn_mxp_dig|%s|%s|%s" % (METH, bcls(x, mm), ecls(ev))
         if not ctx.begin(key, [hx(x), hx(ev), hx(mm)], nontrivial=bool(x)):
             return
         R.bn_put(a, x)
@@ -652,7 +658,7 @@ def run_mod(E):
                 exp = exp * pow(x, ev, mm) % mm
         ncls = "n0" if n == 0 else ("n1" if n == 1 else ("n>8" if n > 8 else "n2-8"))
         mc = "m1" if mm == 1 else ("odd" if mm & 1 else "even")
-        key = "%s|%s|%s|%s|%s|%s" % (fn, METH, ncls, "eneg" if neg and n else "e", "negbase" if any(x < 0 for x in xs) else "base", mc)
+        key = "%s|%s|%s|%s|%s" % (fn, METH, ncls, "eneg" if neg and n else "e", "negbase" if any(x < 0 for x in xs) else "base")
         if not ctx.begin(key, [[hx(x) for x in xs], [hx(v) for v in es], hx(mm)], nontrivial=n > 0):
             return
         R.bn_put(m, mm)
@@ -823,11 +829,15 @@ def run_num(E):
     def rel(x, y):
         return "lt" if abs(x) < abs(y) else ("eq" if abs(x) == abs(y) else "gt")
 
+    def sgn2(x, y):
+        """sign class of an operand pair: a negative operand present / zero present / both positive"""
+        return "neg" if x < 0 or y < 0 else ("zero" if x == 0 or y == 0 else "pos")
+
     def gcd():
         fn = rng.choice(["bn_gcd_basic", "bn_gcd_lehme", "bn_gcd_binar", "bn_gcd"])
         x, y = gcd_pair()
         alias = rng.randrange(3)
-        if not ctx.begin("%s|%s,%s|%s|alias%d" % (fn, sg(x), sg(y), rel(x, y), alias), [hx(x), hx(y)], nontrivial=bool(x or y)):
+        if not ctx.begin("%s|%s|%s|alias%d" % (fn, sgn2(x, y), rel(x, y), alias), [hx(x), hx(y)], nontrivial=bool(x or y)):
             return
         R.bn_put(a, x)
         R.bn_put(b, y)
@@ -857,11 +867,11 @@ def run_num(E):
         enull = rng.random() < 0.15
         # alias patterns used inside the library: d == a (bn_mod_inv(c, c, m)); 0 = none
         alias = rng.choice([0, 0, 0, 1, 2])      # 1: d == a, 2: e == b
-        if enull and alias == 2:
+        if enull:
             alias = 0
         unit = "|bdiv" if y and x % y == 0 else ""        # b divides a (includes b = +-1 and |a| = |b|)
         lab = fn if R.target(fn) == fn else fn + ">" + R.target(fn)[11:]
-        key = "%s|%s,%s|%s%s|%s|alias%d" % (lab, sg(x), sg(y), rel(x, y), unit, "e-null" if enull else "e", alias)
+        key = "%s|%s%s|%s" % (lab, sgn2(x, y), unit, "e-null" if enull else "alias%d" % alias)
         if not ctx.begin(key, [hx(x), hx(y)], nontrivial=bool(x or y)):
             return
         R.bn_put(a, x)
@@ -954,7 +964,7 @@ def run_num(E):
             y >>= W
         zz = "|both-zero" if x == 0 and y == 0 else ""
         alias = rng.randrange(3)
-        key = "bn_lcm|%s,%s%s|alias%d" % (sg(x), sg(y), zz, alias)
+        key = "bn_lcm|%s%s|alias%d" % (sgn2(x, y), zz, alias)
         if not ctx.begin(key, [hx(x), hx(y)], nontrivial=bool(x or y)):
             return
         R.bn_put(a, x)
@@ -1173,7 +1183,7 @@ def composites():
 def run_prime(E):
     ctx, R, rng, W, B, CAP, K = E.ctx, E.R, E.rng, E.W, E.B, E.CAP, E.K
     a, b, c = E.pool[:3]
-    comps = composites()
+    comps = [(n, "spsp-psi" if tg.startswith("spsp-first") else ("p(2p-1)" if tg.startswith("p(2p-1)") else tg)) for n, tg in composites()]
     ctx.note("hostile_composites", {t: sum(1 for _, tg in comps if tg == t) for t in sorted(set(tg for _, tg in comps))})
     table_max = 0xDF if E.w8 else 0xE57              # largest entry of the trial-division table of this digit size
     big = 260 if E.w8 else 1100                      # bit limit for the expensive tests in the quick tier
@@ -1601,11 +1611,7 @@ def run_rec(E):
             p3 = all(not (u[i] and u[i + 1]) or (o[i + 1] != 0 and o[i] == 0) for u, o in ((u0, u1), (u1, u0)) for i in range(ln - 1))
             ctx.check(p1 and p2 and p3, key + "|not-joint-sparse", {"jsf1": p1, "jsf2": p2, "jsf3": p3, "u0": u0[:16], "u1": u1[:16]})
             E.unchanged([(a, x), (b, y)], key)
-        # documented minimum is 2*bits(k) + 1: with a buffer that small and l not longer than k the call must still be safe
-        if ly <= lx and lx:
-            need = 2 * lx + 1
-            rr, ln2, data2 = buf_call("bn_rec_jsf", need - 1, (a, b))
-            ctx.check(rr.caught and rr.err == NB, key + "|short-buffer-accepted", {"need": need})
+        too_short("bn_rec_jsf", key, 2 * off, (a, b))
 
     # ------------------------------------------------------------------ tau-adic
     tables = {}
@@ -2033,17 +2039,6 @@ def run_fatal(E):
         case("bn_rec_tnaf|len=bits+1|k-short", [hx(k), w], tnaf_short("bn_rec_tnaf", k, w))
     for k, w in ((0x7FF, 4), (0xFFFF, 5)):
         case("bn_rec_rtnaf|len=bits+1|k-short", [hx(k), w], tnaf_short("bn_rec_rtnaf", k, w))
-
-    # bn_rec_jsf checks *len against bits(k) only
-    def jsf_short(key):
-        R.bn_put(a, 1)
-        R.bn_put(b, (1 << 200) - 1)
-        buf = R.mem(3, 0x55)
-        E.setlen(3)
-        r = R.call("bn_rec_jsf", buf, E.lenp, a, b)
-        ctx.check(r.caught and r.err == K["ERR_NO_BUFFER"], key + "|short-buffer-accepted", {"len": E.getlen()})
-        R.free(buf)
-    case("bn_rec_jsf|len=2bits(k)+1|l-longer", ["k=1", "l=2^200-1", "len=3"], jsf_short)
 
     # bn_mxp_basic(c, a, b, m) with c == m (the pattern bn_mxp_crt uses): the modulus is overwritten before use
     def mxp_alias_m(key):
